@@ -39,6 +39,9 @@ type Config struct {
 	ExpectPanic   bool              `json:"expect_panic"` // target panics reaching the top are not violations
 	MaxSwitches   int               `json:"max_switches"`
 	MaxGoroutines int               `json:"max_goroutines"`
+	// ConcretizeIndex: a symbolic slice index is case-split into its feasible values instead of
+	// becoming conditional loads/stores (better for hash tables whose code branches on cell contents)
+	ConcretizeIndex bool `json:"concretize_index"`
 }
 
 func (c *Config) defaults() {
@@ -162,6 +165,8 @@ type Explorer struct {
 	cond       *sync.Cond
 	work       [][]Decision
 	active     int
+	newViol    int
+	ForkSites  map[string]int // where two-sided forks happened (profiling)
 	stop       bool
 	Paths      int
 	Outcomes   map[string]int
@@ -487,6 +492,13 @@ func (i *Interp) decideCand(cond *smt.Term, cand int64) bool {
 	p.nfresh++
 	rT := i.solver.Check(cond)
 	rF := i.solver.Check(c.Not(cond))
+	if os.Getenv("GOSX_DECDBG") != "" && i.curInstr != nil {
+		cs := cond.String()
+		if len(cs) > 200 {
+			cs = cs[:200]
+		}
+		fmt.Fprintf(os.Stderr, "DEC w%d #%d %s @%s T=%v F=%v %s\n", i.wid, idx, i.curFn.Name(), i.pos(i.curInstr.Pos()), rT, rF, cs)
+	}
 	if rT == smt.Unknown || rF == smt.Unknown {
 		p.unknowns++
 		i.note("solver returned unknown on a branch feasibility query (both sides kept)")
@@ -494,6 +506,18 @@ func (i *Interp) decideCand(cond *smt.Term, cand int64) bool {
 	feasT, feasF := rT != smt.Unsat, rF != smt.Unsat
 	switch {
 	case feasT && feasF:
+		if i.curInstr != nil {
+			site := fmt.Sprintf("%s @%s", i.curFn.Name(), i.pos(i.curInstr.Pos()))
+			i.ex.mu.Lock()
+			if i.ex.ForkSites == nil {
+				i.ex.ForkSites = map[string]int{}
+			}
+			i.ex.ForkSites[site]++
+			if dbg := os.Getenv("GOSX_FORKDBG"); dbg != "" && strings.Contains(site, dbg) && i.ex.ForkSites[site] <= 3 {
+				fmt.Fprintf(os.Stderr, "FORK w%d %s: k=%d prefix=%v decisions=%v depth=%d\n", i.wid, site, p.k, p.prefix, p.decisions, i.solver.Depth())
+			}
+			i.ex.mu.Unlock()
+		}
 		alt := make([]Decision, idx+1)
 		copy(alt, p.decisions)
 		alt[idx] = Decision{Taken: false, Cand: cand}
@@ -687,6 +711,14 @@ func (i *Interp) recordViolation(kind, name, msg string) {
 	if len(ex.Violations) < 50 {
 		ex.Violations = append(ex.Violations, v)
 	}
+	if v.Known == "" {
+		// enough counterexamples outside the known shapes: the verdict is settled, stop exploring
+		ex.newViol++
+		if ex.newViol >= 24 {
+			ex.stop = true
+			ex.cond.Broadcast()
+		}
+	}
 	ex.mu.Unlock()
 }
 
@@ -788,6 +820,7 @@ type Summary struct {
 	Budgeted    bool           `json:"path_budget_hit"`
 	Bounds      *Config        `json:"bounds"`
 	Witnesses   [][]TapeEntry  `json:"witness_tapes"`
+	ForkSites   map[string]int `json:"fork_sites,omitempty"`
 }
 
 func (ex *Explorer) Summary(wall time.Duration) *Summary {
@@ -796,7 +829,7 @@ func (ex *Explorer) Summary(wall time.Duration) *Summary {
 		Unknown: ex.Stats.UnknownN, SolverTimeS: ex.Stats.SolverTime.Seconds(), WallS: wall.Seconds(),
 		Reached: ex.Reached, AssertsOK: ex.AssertsOK, AssertsUnk: ex.AssertsUnk, Problems: ex.Msgs, Notes: ex.Notes,
 		Violations: ex.Violations, Samples: ex.Samples, SolverErrs: ex.Stats.Errors, TimedOut: ex.TimedOut,
-		Budgeted: ex.Budgeted, Bounds: ex.Cfg, Witnesses: ex.WitnessTapes}
+		Budgeted: ex.Budgeted, Bounds: ex.Cfg, Witnesses: ex.WitnessTapes, ForkSites: ex.ForkSites}
 	for f := range ex.Funcs {
 		pos := ex.Prog.Fset.Position(f.Pos())
 		s.Funcs = append(s.Funcs, fmt.Sprintf("%s (%s:%d)", f.String(), strings.TrimPrefix(pos.Filename, "/repo/"), pos.Line))
